@@ -328,16 +328,19 @@ class HttpDataTransform:
         return request._replace(body=body, params=params, uri=uri, headers=headers)
 
     @overload
-    def recover(self, http: HttpRequest) -> ClientC2Data: ...
+    def recover(self, http: HttpRequest, base_uri: bytes = b"") -> ClientC2Data: ...
 
     @overload
-    def recover(self, http: HttpResponse) -> ServerC2Data: ...
+    def recover(self, http: HttpResponse, base_uri: bytes = b"") -> ServerC2Data: ...
 
-    def recover(self, http: Union[HttpRequest, HttpResponse]) -> Union[ClientC2Data, ServerC2Data]:
+    def recover(
+        self, http: Union[HttpRequest, HttpResponse], base_uri: bytes = b""
+    ) -> Union[ClientC2Data, ServerC2Data]:
         """Recovers the transformed data in `http` object and returns a C2Data namedtuple.
 
         Args:
             http: a :class:`HttpRequest` or :class:`HttpResponse` namedtuple
+            base_uri: the configured URI of the request, `uri-append` data is what follows it
         Returns:
             Either a :class:`ClientC2Data` or :class:`ServerC2Data` namedtuple based on the `http` data.
         """
@@ -373,7 +376,7 @@ class HttpDataTransform:
                 data = http.body
             elif step == "uri_append":
                 assert isinstance(http, HttpRequest)
-                data = http.uri
+                data = http.uri[len(base_uri) :]
             elif step == "header":
                 assert isinstance(step_val, bytes)
                 data = http.headers[step_val]
@@ -511,7 +514,12 @@ class C2Http:
         keys = keys or self.beacon_keys
 
         transform = self.get_transform_for_http(http)
-        c2data = transform.recover(http)
+        base_uri = b""
+        if isinstance(http, HttpRequest):
+            # the longest configured URI the request starts with, `uri-append` data follows it
+            uris = (self.submit_uri,) if transform is self.transform_submit else self.get_uris
+            base_uri = max((u for u in uris if http.uri.startswith(u)), key=len, default=b"")
+        c2data = transform.recover(http, base_uri=base_uri)
 
         # decrypt c2data.metadata, if available and we have a private key
         if c2data.metadata and self.priv:
